@@ -908,6 +908,14 @@ var c35LabelSets = [][]string{
 	{"l.é", "v"},
 	{"a", "1", "z", "2"},
 	{"l", "} # {x=\"y\"} 1 2"},
+	// escapes at the boundaries of the value
+	{"l", "\\start"},
+	{"l", "\"quote first and last\""},
+	{"l", "\nline feed first"},
+	{"l", "ends with backslash\\"},
+	{"l", "ends with line feed\n"},
+	{"l", "\\\n\""},
+	{"l", "a\\\\b\\n"},
 }
 
 var c35Values = []float64{0, 1, -1.5, 1e-7, 1.7976931348623157e308, 5e-324, math.NaN(), math.Inf(1), math.Inf(-1), 123456789012345680}
@@ -922,7 +930,10 @@ var c35TSs = []c35TSv{{false, 0}, {true, 0}, {true, -1}, {true, 1}, {true, 17000
 // timestamps that OpenMetrics (seconds as a decimal float) can carry exactly
 func c35TSOKForOM(t c35TSv) bool { return !t.Has || (t.V > -1e15 && t.V < 1e15) }
 
-var c35Helps = []*string{nil, proto.String(""), proto.String("plain help"), proto.String("esc \\ \n \" \\n end"), proto.String("ünï→"), proto.String(" both ")}
+var c35Helps = []*string{nil, proto.String(""), proto.String("plain help"), proto.String("esc \\ \n \" \\n end"), proto.String("ünï→"), proto.String(" both "),
+	// escapes at the boundaries of the help text
+	proto.String("\\\\fileserver\\share"), proto.String("\nline feed first"), proto.String("ends with backslash\\"), proto.String("ends with line feed\n"),
+	proto.String("\\"), proto.String("\n"), proto.String("\\\\"), proto.String("\"quoted\""), proto.String("\\n literal backslash n"), proto.String("\\\n\"")}
 
 func c35Ex1(k int) *c35Ex {
 	switch k {
@@ -931,7 +942,7 @@ func c35Ex1(k int) *c35Ex {
 	case 2:
 		return &c35Ex{Lbl: []string{"trace_id", "a\\b\"c\nd", "span", "é"}, Val: -1, HasTS: false}
 	case 3:
-		return &c35Ex{Lbl: []string{"id", "x"}, Val: math.Inf(1), HasTS: true, TS: 1700000000123}
+		return &c35Ex{Lbl: []string{"id", "\\x\n", "q", "\"y\""}, Val: math.Inf(1), HasTS: true, TS: 1700000000123}
 	}
 	return nil
 }
@@ -1458,7 +1469,7 @@ func TestVerifC35(t *testing.T) {
 	r.Count("totality_empty", int(outcomes[1].Load()))
 	r.Count("totality_entries", int(outcomes[2].Load()))
 	r.Set("max_short_string_len", maxLen)
-	r.Set("rule", "part 1: every element of the facets scalar-values (6 type/name variants x 7 label sets with escapes/UTF-8 x 11 special values x 8 timestamps), scalar-metadata (help x unit x exemplar x start timestamp x second metric x following family), summary, classic-histogram (incl. fractional counts, explicit/implicit +Inf, exemplars) and native-histogram (protobuf; gaps, both sides, float, gauge, with classic buckets), each encoded by expfmt in every format that can express it and parsed under every ParserOptions combination; non-trivial = at least one sample parsed (distinct_nontrivial counts distinct parsed sample sets). part 2: all byte strings up to max_short_string_len over 12 symbols per format (OpenMetrics also with an EOF marker appended) and every single-byte deletion/substitution of the sampled valid payloads.")
+	r.Set("rule", "part 1: every element of the facets scalar-values (6 type/name variants x 14 label sets with escapes (also at the value boundaries)/UTF-8 x 10 special values x 8 timestamps), scalar-metadata (16 help texts incl. escapes first/last/only x unit x exemplar x start timestamp x second metric x following family), summary, classic-histogram (incl. fractional counts, explicit/implicit +Inf, exemplars) and native-histogram (protobuf; gaps, both sides, float, gauge, with classic buckets), each encoded by expfmt in every format that can express it and parsed under every ParserOptions combination; non-trivial = at least one sample parsed (distinct_nontrivial counts distinct parsed sample sets). part 2: all byte strings up to max_short_string_len over 12 symbols per format (OpenMetrics also with an EOF marker appended) and every single-byte deletion/substitution of the sampled valid payloads.")
 	r.Assume("expfmt/client_model encode the model faithfully (they are the reference encoder named by the property); timestamps beyond +-1e15 ms are not required to survive OpenMetrics' float seconds")
 	if !r.Expired() {
 		if nontrivial.Load() == 0 || outcomes[0].Load() == 0 || outcomes[2].Load() == 0 {
